@@ -312,10 +312,10 @@ def _wpt(which, runner):
     def hxs(s): return '-' if s == '' else s.encode('utf-8', 'surrogatepass').hex()
     starts = [i for i, l in enumerate(lines) if l == 'case'][1:]   # the first 'case' is the stream separator
     cov = {'cases': len(d), 'spec_agrees': 0, 'cpp_agrees': 0}
+    viol = []
     if getattr(g, 'wpt_missing', None): cov['data_files_not_readable'] = sorted(g.wpt_missing)
     if len(d) == 0:
         viol.append(('wpt', ['# ' + which], 'wpt\nno conformance data could be read for %s (doc/wpt and /repo/test/data)' % which, False))
-    viol = []
     for k, s0 in enumerate(starts[:len(d)]):
         if which == 'wpt':
             c = d[k]; i = s0 + 1
